@@ -16,6 +16,7 @@ structure DState where
   phase    : Option Phase := none       -- phase of the last command of the running test
   inTest   : Bool := false              -- between `pre` and `post`
   f0       : Nat := 0                   -- failure count when the test started
+  first    : FirstPlugin := (Proc.init true).first   -- who firstPlugin_ points to
   separate : Bool := false              -- the running test runs in a forked child
   parent   : World := World.init true   -- separate: the parent's state while the child runs
 deriving Inhabited
@@ -100,7 +101,8 @@ def postSteps' : List RStep := (Gen.LeakCode.runOneTestOrder.dropWhile (· != .r
 def modelStep (d : DState) (op : List String) (obs : List (List String)) : DState × List String :=
   match op with
   | "mode" :: m :: rest =>
-    ({ w := World.init (!(rest.contains "nooverloads")), global := m == "global" }, [])
+    ({ w := World.init (!(rest.contains "nooverloads")), global := m == "global",
+       first := (Proc.init true).first }, [])
   | ["test", _] =>
     if obs.contains ["notrun"] then (d, ["notrun"])
     else ({ d with w := clearObs d.w, phase := none, inTest := false, f0 := d.w.failures, separate := false }, [])
@@ -110,6 +112,14 @@ def modelStep (d : DState) (op : List String) (obs : List (List String)) : DStat
   | ["cmd", "o", "overloads", b] =>
     if obs.contains ["ok"] then
       ({ d with w := if b == "on" then turnOnOverloads d.w else turnOffOverloads d.w }, ["ok"])
+    else (d, ["skipped"])
+  | ["cmd", _, "plugin2", k] =>
+    -- a further plugin object is constructed (and destroyed at once unless `keep`)
+    if obs.contains ["ok"] then
+      let p : Proc := { w := d.w, first := d.first }
+      let p := p.step .constructOther
+      let p := if k == "keep" then p else p.step .destroyOther
+      ({ d with w := p.w, first := p.first }, ["ok"])
     else (d, ["skipped"])
   | ["cmd", "o", "separate"] =>
     if obs.contains ["ok"] then ({ d with separate := true }, ["ok"]) else (d, ["skipped"])
@@ -134,7 +144,8 @@ def modelStep (d : DState) (op : List String) (obs : List (List String)) : DStat
     | some ph, some c =>
       let w := if d.phase == some ph then d.w else enterUpTo d.w d.phase ph
       let d := { d with w := w, phase := some ph }
-      if w.aborted then (d, ["skipped"]) else execAndRender d execCmd c obs
+      if w.aborted then (d, ["skipped"])
+      else execAndRender d (fun w c => (Proc.execCmd { w := w, first := d.first } c).w) c obs
     | _, _ => (d, ["bad-op"])
   | ["post"] =>
     let w0 := (phasesAfter d.phase).foldl enterPhase d.w
@@ -192,6 +203,7 @@ def specStep (sh : Shadow) (o : Proto.Op) : Except String Shadow := do
     if o.obs.contains ["ok"] then return { sh with overloads := b == "on" } else return sh
   | ["cmd", "o", "separate"] =>
     if o.obs.contains ["ok"] then return { sh with separate := true } else return sh
+  | ["cmd", _, "plugin2", _] => return sh          -- constructing another plugin object is not part of the history
   | "cmd" :: _ :: "alloc" :: l :: sz :: _ =>
     match obsNum o.obs with
     | some n =>
